@@ -19,7 +19,7 @@ CHAIN_IDS = ["A", "B", "C", "D", "X", "Y", "Z", "a", "b", "1", "2"]
 
 @st.composite
 def structure(draw, max_chains=3, nmax=6, wild=False, contact=True, waters=True, variants=0.2,
-              hyd=None, missing=False, names=None, nmin=1, oxt=None, start=None):  # fmt: skip
+              hyd=None, missing=False, names=None, nmin=1, oxt=None, start=None, icodes=False):  # fmt: skip
     nch = draw(st.integers(1, max_chains))
     ids = draw(st.permutations(CHAIN_IDS))[:nch]
     chains = []
@@ -30,9 +30,11 @@ def structure(draw, max_chains=3, nmax=6, wild=False, contact=True, waters=True,
             ch["start"] = 9990 - len(ch["seq"])
         if ci > 0:
             if contact and draw(st.integers(0, 3)) > 0:
-                ch["contact"] = draw(strat.contact(wild))
+                ch["contact"] = draw(strat.contact(wild, tip=draw(st.integers(0, 3)) == 0))
             else:
                 ch["shift"] = [45.0 * ci, draw(strat.fl(-5.0, 5.0)), draw(strat.fl(-5.0, 5.0))]
+        if icodes and draw(st.integers(0, 2)) == 0:
+            strat.add_insertion_codes(draw, ch)
         if missing and ch["hyd"] == "none" and draw(st.integers(0, 1)) == 0:
             ri = draw(st.integers(0, len(ch["seq"]) - 1))
             ch["drop_spec"] = dict(res=ri, atom=draw(st.integers(0, 30)),
@@ -166,6 +168,9 @@ def normalise(desc, opts=()):
     strict = "--assign-only" in opts
     if strict and "--drop-water" not in opts:
         desc["waters"] = []  # oxygen-only waters cannot be parameterised without adding atoms
+    if strict:
+        for ch in desc["chains"]:
+            ch.pop("hdrop", None)  # nothing is added with --assign-only: no hydrogen may be missing
     heavy = 0
     for ch in desc["chains"]:
         if "window" in ch:
